@@ -163,7 +163,23 @@ func RunG(s *scn.Scenario, opt Options) *Result {
 	defer x.finish()
 	x.installCache()
 
-	for _, es := range s.Exprs {
+	// "compile once, share": the main goroutine compiles the expressions that
+	// select / eval operations use. Expressions only ever compiled by the tasks
+	// themselves are not compiled here, so that concurrent Compile calls meet a
+	// package (and a namespace map) nobody has warmed up for them.
+	usedShared := map[int]bool{}
+	for _, ops := range s.Tasks {
+		for _, st := range ops {
+			if st.Op == "select" || st.Op == "eval" {
+				usedShared[st.E%len(s.Exprs)] = true
+			}
+		}
+	}
+	for i, es := range s.Exprs {
+		if s.Prop == "C05" && !usedShared[i] {
+			x.shared = append(x.shared, nil)
+			continue
+		}
 		e := x.begin(SoloBudget, 0)
 		ex, _ := compile(es.Text)
 		x.end(e)
